@@ -12,6 +12,7 @@ import (
 func init() {
 	register(&propSpec{
 		id: "C04", title: "Faults in user programs are contained", run: runC04,
+		variants:    []buildVariant{{name: "GOARCH=386", env: []string{"GOARCH=386"}}},
 		notCovered:  "slice/map index panics and nil dereferences in general, stack exhaustion inside Go libraries, wall-clock bounds, the numeric value of the limits; the claim is layered: every loop/recursion driver has its bound in place, the enumerated panic classes are guarded, a panic that still happens is contained, and 5xx bodies are generic",
 		assumptions: []string{"dynamic interface values that can hold uncomparable data are interface{} and vm.Value", "a goroutine 'runs user code' when its closure reaches executeStatements / EvaluateExpression / (*VM).executeRaw / Execute"},
 	})
